@@ -123,6 +123,11 @@ def check(prop, tier):
             if len(fps) == 2 and name(fps[0]) != name(fps[1]) and not sc['outs'][0]['out']['adversarial'] and sc['outs'][0]['out']['exit'] == 0:
                 multi.append(l)
         pick += multi[:1200 if tier == 'quick' else 15000]
+        # series of three patches that relate names (a file is deleted, patched through the other name, patched under its own)
+        out3, st3 = p_tool.enumerate_scenarios(res, 'related-names-3patches', 'TreesSmall', 'FALSE', 3, 'Cfgs_one', work, 'FALSE')
+        l3 = [l for l in open(out3, errors='replace') if l.startswith('"{') and re.search(r'\\"old\\":\\"a\\",\\"new\\":\\"b\\"', l)]
+        os.unlink(out3)
+        pick += rnd.sample(l3, min(len(l3), 1200 if tier == 'quick' else 15000))
         jobs = []
         for li, line in enumerate(pick):
             sc = json.loads(json.loads(line))
